@@ -134,4 +134,55 @@ def runA : ASt → List ROp → List ROut
   | _, [] => []
   | a, o :: os => let (a', out) := stepA a o; out :: runA a' os
 
+/-! ### The file-based store (`pkg/ref/fs`): the same map, three operations in their file-store form
+
+`pkg/ref/fs` keeps one file per ref (`refs/<name>`) and one per log (`logs/<name>`). It is judged by
+the SAME abstract map `ASt`/`stepA`; the operations below are the only ones whose file-store form
+differs, and each form is still an operation of a plain map with per-name logs:
+
+* `del` of a name that is not bound reports an error (`os.Remove`) and changes nothing; the SQL
+  store reports success.
+* `rename o n` / `copy s d` onto a bound destination REPLACE it — value and log — the way
+  assigning to a map entry does (`os.Rename` / `os.Create`); the SQL store refuses. Written here
+  as "delete the destination, then the map's rename/copy". `rename o o` / `copy s s` of a bound
+  name leave the map as it is.
+* `renameAllRemote` is the same loop over the file-store rename.
+
+Everything else (`set`, `setLog`, `get`, `filter`, `filterKey`, `log`, `listRefs`, `delAllRemote`)
+is `stepA` itself. What the file store does not implement at all (several prefixes, excluded
+prefixes, prefixes that are not directory paths, names that are directories of other names, a log
+entry's old value computed by the store, transactions, the order of `FilterKey`) is never
+generated for it or is normalised by the runner; the list is in harness/c15.go (`c15FsDomain`). -/
+
+/-- file-store form of one step of the abstract map -/
+def stepAF (a : ASt) : ROp → ASt × ROut
+  | .del k => if (a.val k).isSome then stepA a (.del k) else (a, .err)
+  | .rename o n =>
+    if (a.val o).isSome && (a.val n).isSome then
+      (if o == n then (a, .ok) else stepA (stepA a (.del n)).1 (.rename o n))
+    else stepA a (.rename o n)
+  | .copy s d =>
+    if (a.val s).isSome && (a.val d).isSome then
+      (if s == d then (a, .ok) else stepA (stepA a (.del d)).1 (.copy s d))
+    else stepA a (.copy s d)
+  | .renameAllRemote o n =>
+    let pfx := remoteRef o ""
+    let keys := (sortedPairs a (hasPrefix pfx)).map (·.1)
+    let r := keys.foldl (fun (acc : ASt × Bool) k =>
+      if !acc.2 then acc else
+      match stepAF_rename acc.1 k (remoteRef n (stripPrefix pfx k)) with
+      | (st, .ok) => (st, true)
+      | (st, _) => (st, false)) (a, true)
+    (r.1, if r.2 then .ok else .err)
+  | op => stepA a op
+where
+  stepAF_rename (a : ASt) (o n : Name) : ASt × ROut :=
+    if (a.val o).isSome && (a.val n).isSome then
+      (if o == n then (a, .ok) else stepA (stepA a (.del n)).1 (.rename o n))
+    else stepA a (.rename o n)
+
+def runAF : ASt → List ROp → List ROut
+  | _, [] => []
+  | a, o :: os => let (a', out) := stepAF a o; out :: runAF a' os
+
 end Wrgl
